@@ -22,7 +22,13 @@
 //         ended up in their batches (the linearisation the implementation chose).
 // script: comma separated behaviours, consumed per destination in request order, then `ok`:
 //
-//	ok okm sh~N lg~N pe~M ps~S ud udm em st~C sm~C sx~C ra~C~<Retry-After> to er cl hg
+//	ok okm sh~N lg~N pe~M ps~S ud udm em st~C sm~C sx~C ra~C~<Retry-After> to er cl hg hd
+//
+// advh <ns> <k> <dest>[.<dest>…] s=<script>: advance like `adv`; the first request that is answered
+// with `hd` is HELD by the upstream; while it is held (its sendBatch is in flight) k small events
+// are enqueued (event i for the i-th listed destination, cyclically), then the request is released
+// (answer: ok) and the advance continues.  Without a held request the events are enqueued at the
+// end.  `ext held <first id> = <ns>` is the clock at which the events were enqueued.
 package main
 
 import (
@@ -40,6 +46,7 @@ import (
 	"strconv"
 	"strings"
 	"sync"
+	"sync/atomic"
 	"time"
 
 	"github.com/jonboulle/clockwork"
@@ -57,7 +64,45 @@ import (
 
 var epoch = time.Date(2024, 1, 1, 0, 0, 0, 0, time.UTC)
 
-var bigString = strings.Repeat("x", 1_400_000)
+var bigString = strings.Repeat("x", 5_600_000)
+
+// Watchdog.  Every blocking wait on the transmission (dispatch pool, Stop) is bounded: when nothing
+// at all has happened for idleLimit (no metric call, no request seen by the transport hook, no byte
+// read by the upstream) the wait is abandoned, the case is marked hung and every further
+// operation of the case is observed as `hang`.
+var lastActivity atomic.Int64
+
+func touch() { lastActivity.Store(time.Now().UnixNano()) }
+
+var idleLimit = func() time.Duration {
+	if v, err := strconv.Atoi(os.Getenv("VERIF_TRANSMIT_IDLE_MS")); err == nil && v > 0 {
+		return time.Duration(v) * time.Millisecond
+	}
+	return 6 * time.Second
+}()
+
+// bounded runs wait in a goroutine; false when the watchdog gave up on it.
+func bounded(wait func()) bool {
+	done := make(chan struct{})
+	touch()
+	go func() { wait(); close(done) }()
+	tk := time.NewTicker(100 * time.Millisecond)
+	defer tk.Stop()
+	for {
+		select {
+		case <-done:
+			return true
+		case <-tk.C:
+			if time.Since(time.Unix(0, lastActivity.Load())) > idleLimit {
+				return false
+			}
+		}
+	}
+}
+
+type touchWriter struct{}
+
+func (touchWriter) Write(p []byte) (int, error) { touch(); return len(p), nil }
 
 // ---------------------------------------------------------------------------------- metrics
 
@@ -78,13 +123,15 @@ func newRec(queued string) *recMetrics {
 }
 
 func (m *recMetrics) Register(metrics.Metadata) {}
-func (m *recMetrics) Increment(name string)    { m.mu.Lock(); m.ctr[name]++; m.mu.Unlock() }
+func (m *recMetrics) Increment(name string)    { touch(); m.mu.Lock(); m.ctr[name]++; m.mu.Unlock() }
 func (m *recMetrics) Count(name string, n int64) {
+	touch()
 	m.mu.Lock()
 	m.ctr[name] += n
 	m.mu.Unlock()
 }
 func (m *recMetrics) Gauge(name string, v float64) {
+	touch()
 	if strings.HasSuffix(name, "_queue_length") {
 		m.mu.Lock()
 		m.handled++
@@ -93,6 +140,7 @@ func (m *recMetrics) Gauge(name string, v float64) {
 	}
 }
 func (m *recMetrics) Histogram(name string, v float64) {
+	touch()
 	if strings.HasSuffix(name, "_stale_dispatch_time") {
 		m.mu.Lock()
 		m.handled++
@@ -101,6 +149,7 @@ func (m *recMetrics) Histogram(name string, v float64) {
 	}
 }
 func (m *recMetrics) Up(name string) {
+	touch()
 	m.mu.Lock()
 	if name == m.queued {
 		m.up++
@@ -110,6 +159,7 @@ func (m *recMetrics) Up(name string) {
 	m.mu.Unlock()
 }
 func (m *recMetrics) Down(name string) {
+	touch()
 	m.mu.Lock()
 	if name == m.queued {
 		m.down++
@@ -318,6 +368,8 @@ func decodeBody(b []byte) ([]int, error) {
 
 // proxyHook is http.Transport.Proxy: called once per attempt with the outgoing request.
 func proxyHook(req *http.Request) (*url.URL, error) {
+	touch()
+	defer touch()
 	r := current()
 	if r == nil {
 		return nil, errors.New("no case")
@@ -431,7 +483,9 @@ func repl(n, v int) []int {
 
 func serve(w http.ResponseWriter, q *http.Request) {
 	r := current()
-	n, _ := io.Copy(io.Discard, q.Body)
+	touch()
+	defer touch()
+	n, _ := io.Copy(touchWriter{}, q.Body)
 	if r == nil {
 		w.WriteHeader(500)
 		return
@@ -524,6 +578,21 @@ func serve(w http.ResponseWriter, q *http.Request) {
 			w.Header().Set("Retry-After", kit.Dec(p[2]))
 		}
 		writeJSON(arg(1), []byte(`{"error":"slow down"}`))
+	case "hd":
+		r.mu.Lock()
+		active, rel, held := r.holdActive, r.releaseCh, r.heldCh
+		r.mu.Unlock()
+		if active && rel != nil {
+			select {
+			case held <- struct{}{}:
+			default:
+			}
+			select {
+			case <-rel:
+			case <-time.After(30 * time.Second):
+			}
+		}
+		writeJSON(200, jsonStatuses(repl(d.count, 202)))
 	case "hg":
 		select {
 		case <-q.Context().Done():
@@ -610,6 +679,11 @@ type runner struct {
 	nextID   int
 	cfg      *config.MockConfig
 
+	hung       bool          // the watchdog gave up on a wait: the transmission spins or is stuck
+	holdActive bool          // `hd` answers wait for releaseCh
+	heldCh     chan struct{} // one token per request that is being held
+	releaseCh  chan struct{}
+
 	script   []string
 	cursor   map[string]int
 	fifo     map[string][]decision
@@ -645,9 +719,9 @@ func (comp) NewCase(h []string) kit.Runner {
 }
 
 func (r *runner) Close() {
-	if r.started && !r.stopped {
+	if r.started && !r.stopped && !r.hung {
 		r.beginOp(nil)
-		r.dt.Stop()
+		bounded(func() { r.dt.Stop() })
 		r.stopped = true
 	}
 	curMu.Lock()
@@ -745,11 +819,61 @@ func (r *runner) mkEvent(id, di int, target string) *types.Event {
 	return ev
 }
 
-func (r *runner) drain() { transmit.VerifTransmitDrain(r.dt) }
+func (r *runner) drain() {
+	if r.hung {
+		return
+	}
+	if !bounded(transmit.VerifTransmitDrainStart(r.dt)) {
+		r.hung = true
+	}
+}
 
 // advance moves the fake clock, stopping at every instant a ticker of the code fires and waiting
 // there until the ticker loop has handled the tick and the sends it dispatched have finished.
-func (r *runner) advance(d time.Duration) string {
+func (r *runner) advance(d time.Duration) string { return r.advanceHold(d, nil) }
+
+// drainOrHold waits for the dispatched sends; when a request is held meanwhile, onHold runs (with
+// the send still in flight) and the held requests are released.
+func (r *runner) drainOrHold(onHold func()) {
+	wait := transmit.VerifTransmitDrainStart(r.dt)
+	done := make(chan struct{})
+	go func() { wait(); close(done) }()
+	fired := false
+	touch()
+	tk := time.NewTicker(100 * time.Millisecond)
+	defer tk.Stop()
+	for {
+		select {
+		case <-tk.C:
+			r.mu.Lock()
+			holding := r.holdActive && fired
+			r.mu.Unlock()
+			if !holding && time.Since(time.Unix(0, lastActivity.Load())) > idleLimit {
+				r.hung = true
+				return
+			}
+		case <-done:
+			if fired {
+				r.drain() // sends dispatched by the enqueues themselves
+				r.mu.Lock()
+				r.cursor = map[string]int{}
+				r.mu.Unlock()
+			}
+			return
+		case <-r.heldCh:
+			if !fired {
+				fired = true
+				onHold()
+				r.mu.Lock()
+				r.holdActive = false
+				close(r.releaseCh)
+				r.mu.Unlock()
+			}
+		}
+	}
+}
+
+func (r *runner) advanceHold(d time.Duration, onHold func()) string {
 	target := r.now + d
 	for r.now < target {
 		next := target
@@ -776,7 +900,14 @@ func (r *runner) advance(d time.Duration) string {
 			if !r.met.waitHandled(r.expected) {
 				return "tick-not-handled"
 			}
-			r.drain()
+			if onHold != nil && r.holdActive {
+				r.drainOrHold(onHold)
+			} else {
+				r.drain()
+			}
+			if r.hung {
+				return "hang"
+			}
 		}
 	}
 	return ""
@@ -851,6 +982,17 @@ func (r *runner) observe(extra string) string {
 }
 
 func (r *runner) Do(op []string) (string, bool) {
+	if r.hung {
+		return "hang", true
+	}
+	obs, has := r.do(op)
+	if r.hung {
+		return "hang", true
+	}
+	return obs, has
+}
+
+func (r *runner) do(op []string) (string, bool) {
 	switch op[0] {
 	case "start":
 		if r.started {
@@ -906,6 +1048,63 @@ func (r *runner) Do(op []string) (string, bool) {
 		}
 		r.dt.EnqueueEvent(ev)
 		r.drain()
+		return r.observe(""), true
+	case "advh":
+		if !r.started || len(op) < 4 {
+			return "bad-op", true
+		}
+		d, _ := strconv.ParseInt(op[1], 10, 64)
+		k, _ := strconv.Atoi(op[2])
+		var dl []int
+		for _, x := range strings.Split(op[3], ".") {
+			v, _ := strconv.Atoi(x)
+			dl = append(dl, v)
+		}
+		if k < 0 || k > 64 || len(dl) == 0 {
+			return "bad-op", true
+		}
+		r.beginOp(parseScript(op))
+		base := r.nextID
+		r.nextID += k
+		evs := make([]*types.Event, k)
+		for i := range evs {
+			evs[i] = r.mkEvent(base+i, dl[i%len(dl)], strconv.Itoa(100+i))
+			if n, err := transmit.VerifTransmitMarshalSize(evs[i]); err != nil {
+				kit.Ext("size %d = err", base+i)
+			} else {
+				kit.Ext("size %d = %d", base+i, n)
+			}
+		}
+		enqAt := time.Duration(-1)
+		doEnq := func() {
+			if enqAt >= 0 {
+				return
+			}
+			enqAt = r.now
+			for _, ev := range evs {
+				r.dt.EnqueueEvent(ev)
+			}
+		}
+		r.mu.Lock()
+		r.holdActive = !r.stopped
+		r.heldCh = make(chan struct{}, 64)
+		r.releaseCh = make(chan struct{})
+		r.mu.Unlock()
+		e := r.advanceHold(time.Duration(d), doEnq)
+		r.mu.Lock()
+		r.holdActive = false
+		r.mu.Unlock()
+		if e != "" {
+			return e, true
+		}
+		if enqAt < 0 && !r.stopped {
+			doEnq()
+			r.drain()
+		}
+		if enqAt < 0 {
+			enqAt = r.now
+		}
+		kit.Ext("held %d = %d", base, int64(enqAt))
 		return r.observe(""), true
 	case "cenq":
 		if !r.started || len(op) < 3 {
@@ -1003,7 +1202,10 @@ func (r *runner) Do(op []string) (string, bool) {
 			return "bad-op", true
 		}
 		r.beginOp(parseScript(op))
-		r.dt.Stop()
+		if !bounded(func() { r.dt.Stop() }) {
+			r.hung = true
+			return "hang", true
+		}
 		r.stopped = true
 		return r.observe(""), true
 	}
@@ -1097,6 +1299,13 @@ func (comp) Gen(r *kit.Rng, maxLen int, tier string) kit.Case {
 			mb = 6 + r.Intn(7)
 		}
 	}
+	// some cases contain "enqueue while a timer-flushed batch is being sent" scenarios; the ones with
+	// a batch that needs two requests (> 5 MB) are kept rare in the quick tier
+	holdBig := big && r.Chance(map[bool]int{true: 22, false: 40}[tier == "quick"])
+	holdSmall := !big && !hang && r.Chance(25)
+	if holdBig {
+		mb = 10 + r.Intn(4)
+	}
 	btms := []int{1, 4, 10, 100, 400, 1000, 30000}[r.Intn(7)]
 	bt := time.Duration(btms) * time.Millisecond
 	period := bt / 4
@@ -1168,7 +1377,102 @@ func (comp) Gen(r *kit.Rng, maxLen int, tier string) kit.Case {
 		hangs += strings.Count(s, "hg")
 		return s
 	}
+	hugeAt := -1
+	if big && r.Chance(25) {
+		hugeAt = r.Intn(n)
+	}
+	holdsLeft := 0
+	if holdBig {
+		holdsLeft = 1 + r.Intn(2)
+	} else if holdSmall {
+		holdsLeft = 1 + r.Intn(3)
+	}
+	holdScenario := func() bool {
+		// a destination with an empty batch gets a batch that the timer will flush; while its first
+		// request is held, more events for it (and maybe for another destination) arrive
+		var cand []int
+		for j := 0; j < nd; j++ {
+			if used[j] && cnt[j] == 0 {
+				cand = append(cand, j)
+			}
+		}
+		if len(cand) == 0 || mb < 3 {
+			return false
+		}
+		j := cand[r.Intn(len(cand))]
+		nb := 1 + r.Intn(mb-1)
+		if holdBig {
+			nb = 6 + r.Intn(mb-6) // ~1 MB each: two requests (4 events fit into the first)
+		}
+		for a := 0; a < nb; a++ {
+			sz := 60 + r.Intn(400)
+			if holdBig {
+				sz = 1_000_000 - r.Intn(2)*r.Intn(1000)
+			}
+			ops = append(ops, fmt.Sprintf("enq %d %d s=%s", j, sz, script()))
+		}
+		cnt[j], start[j], sum[j] = nb, now, 0
+		stale := now + bt
+		T := stale
+		if T%period != 0 {
+			T += period - T%period
+		}
+		for t := now - now%period + period; t <= T; t += period {
+			for x := 0; x < nd; x++ {
+				if cnt[x] > 0 && t-start[x] >= bt {
+					cnt[x] = 0
+				}
+			}
+		}
+		// new events: more for j than the first request of the flushed batch carried, fewer than mb
+		dl := []int{j}
+		kj := 1 + r.Intn(mb-1)
+		if holdBig {
+			kj = 5 + r.Intn(mb-5)
+		}
+		k := kj
+		var o = -1
+		for x := 0; x < nd; x++ {
+			if x != j && used[x] && cnt[x]+kj/2+1 < mb && r.Chance(40) {
+				o = x
+				break
+			}
+		}
+		if o >= 0 {
+			dl = []int{j, j, o}
+			k = kj + kj/2
+		}
+		strs := make([]string, len(dl))
+		for a, x := range dl {
+			strs[a] = strconv.Itoa(x)
+		}
+		d := T - now
+		now = T
+		for a := 0; a < k; a++ {
+			x := dl[a%len(dl)]
+			if cnt[x] == 0 {
+				start[x] = now
+				sum[x] = 0
+			}
+			cnt[x]++
+			sum[x] += 100 + a
+			if cnt[x] >= mb {
+				cnt[x] = 0
+			}
+		}
+		rest := script()
+		sc := "hd"
+		if rest != "-" {
+			sc += "," + rest
+		}
+		ops = append(ops, fmt.Sprintf("advh %d %d %s s=%s", int64(d), k, strings.Join(strs, "."), sc))
+		return true
+	}
 	for i := 0; i < n; i++ {
+		if holdsLeft > 0 && r.Chance(12) && holdScenario() {
+			holdsLeft--
+			continue
+		}
 		switch r.Pick(56, 34, 10) {
 		case 2: // concurrent enqueue, preferably on destinations nothing was enqueued for yet
 			if mb < 2 {
@@ -1243,7 +1547,11 @@ func (comp) Gen(r *kit.Rng, maxLen int, tier string) kit.Case {
 			var target string
 			sz := 0
 			cls := r.Pick(38, 10, 10, 8, 4, 30)
-			if !big && cls != 4 {
+			if hugeAt >= 0 && i >= hugeAt { // this case's one event larger than a whole request
+				hugeAt = -1
+				cls = 6
+			}
+			if !big && cls != 4 && cls != 6 {
 				cls = 0
 				if r.Chance(10) {
 					cls = 1
@@ -1261,6 +1569,11 @@ func (comp) Gen(r *kit.Rng, maxLen int, tier string) kit.Case {
 				sz = 1_000_000 - r.Intn(3)*r.Intn(20)
 			case 3:
 				sz = 1_000_001 + r.Intn(2)*r.Intn(200_000)
+				if tier != "quick" && r.Chance(10) { // an event that alone exceeds the 5 MB request limit
+					sz = []int{5_000_001, 4_999_996, 5_000_000, 5_000_006, 5_300_000}[r.Intn(5)]
+				}
+			case 6:
+				sz = []int{5_000_001, 4_999_996, 5_000_000, 5_000_006, 5_300_000}[r.Intn(5)]
 			case 5: // fill the current sub-batch up to the 5 MB boundary, then aim at it
 				room := 5_000_000 - 5 - sum[di]
 				if room > 1_000_000 {
